@@ -14,8 +14,22 @@ Decided structurally (clauses that are necessary for the property; the rendered 
 * links   - dependency / parent columns: `[ids]` of predecessors / successors, id of the parent; `(external)` is
             appended iff `linked.wbs != task.wbs` (no further condition); None / sentinel parent prints ''.
 * usage   - `ResourceUsageReport.__repr__`: `d = min(dates); while d <= max(dates): row; d += 1 day`, one row per
-            iteration with one date cell and one cell per resource, header with the same resources.
+            iteration with one date cell and one cell per resource, header with the same resources.  Equivalent day loops
+            are followed: `for d in <package generator>(first, last)` (the generator is `while day <= last: yield day;
+            day += 1 day`), `for i in range((last - first).days + 1): d = first + timedelta(days=i)` and the same as a
+            list comprehension.  first / last taken from individual rows, from a filtered set, or as the extreme of
+            TEXT labels of the dates (`D[min(D)]` over a dict keyed by strftime) are refuted.
+* fields  - `__get_field_value` returns a str on every path; the attribute read by name is reached only for names that
+            are known to be in `t.__dict__` (guard clause with `return ''`, or a resolved local
+            `name = field if field in t.__dict__ else ... else None` + `if name is None: return ''`).
+* caps    - a widths list / running maximum that is capped (`min(v, K)`, `v if v < K else K`, `v - k`) is refuted: texts
+            are not cut, so the column is narrower than its longest cell.
+* depth   - indentation multiplied by a value read off the printed task alone (`len(task.all_parents)`, a helper that
+            only receives the task) is refuted: the level is relative to the printed tasks and only the recursion knows it.
 
+Not decided (exit 2): an anchored private helper (`__get_linked_task_id`, `__get_linked_tasks_id`, `__get_field_value`,
+`__print_task_subtree`, `colored_text`) that is renamed or moved to module level - the anchors are looked up by name;
+day generators with break/return/conditional yields; name lookups guarded by try/except or by a package helper.
 Not decided: multi-line cell texts, display width of non-ASCII text, the actual strings (str() of attribute values),
 whether `fields` is a re-iterable collection, colour themes (only that colour codes wrap the padded text).
 """
@@ -465,8 +479,13 @@ def _indent(ctx):
                     ind = [p for p in parts if isinstance(p, ast.BinOp) and isinstance(p.op, ast.Mult)]
                     rest = [p for p in parts if not any(p is i for i in ind)]
                     if not ind:
+                        own = {x.id for x in ast.walk(xe) if isinstance(x, ast.Name)} & (set(f.params) | {d_.var for d_ in flow_of(f).defs})
                         if len(parts) == 1 and _name_or_empty(parts[0], P['task']):
                             o.refute(f, node, sub, "the name cell carries no indentation: expected '   ' * level in front of the name")
+                        elif own <= {P['task']}:
+                            abs_depth = True
+                            o.refute(f, node, sub, f"the name cell `{src(xe)[:80]}` is computed from the printed task alone: it cannot be "
+                                                   f"indented by the depth below the tasks being printed, which only the recursion knows")
                         else:
                             o.undecided(f, node, sub, f"name cell `{src(xe)[:100]}` is not `<indent> * level + name`")
                         continue
@@ -1020,6 +1039,13 @@ def _narrowed(elt, val):
         return "capped at `" + ', '.join(src(a) for a in caps) + "`"
     if isinstance(elt, ast.BinOp) and isinstance(elt.op, ast.Sub) and same(elt.left, val) and facts.const_num(elt.right):
         return f"reduced by {src(elt.right)}"
+    if isinstance(elt, ast.IfExp):
+        # `v if v < K else K` / `K if v > K else v`: min(v, K) spelled as a conditional expression
+        c = cmp_oriented(elt.test, True, lambda x: same(x, val))
+        if c and c[1] in ('<', '<=', '>', '>='):
+            small, big = (elt.body, elt.orelse) if c[1] in ('<', '<=') else (elt.orelse, elt.body)
+            if same(small, val) and same(big, c[2]):
+                return f"capped at `{src(c[2])}`"
     return None
 
 
@@ -2209,8 +2235,13 @@ def _field_texts(ctx):
             why = _lookup_guarded(ex, cfg, f, t, a, cn)
             if why is None:
                 all_ok = False
+            elif why[0] == 'bad' and not (isinstance(a, ast.Name) and a.id == fld):
+                o.refute(f, c, 'unknown field', f"{why[1]}: an unknown field raises instead of printing an empty column")
+                return
+            elif why[0] == 'bad':
+                all_ok = False
             else:
-                o.site(f, c, f"unknown field -> '': {why}")
+                o.site(f, c, f"unknown field -> '': {why[1]}")
         if all_ok:
             return
         # closed world: nothing in the function asks whether the task has the attribute
@@ -2247,9 +2278,10 @@ def ctx_target(ctx, f, call):
 
 
 def _lookup_guarded(ex, cfg, f, t, name_expr, cn):
-    """text saying why `t.__getattribute__(name_expr)` at cfg node cn only sees names the task has, else None:
-    every alternative of the (expanded) name is under `<alt> in t.__dict__` / `hasattr(t, <alt>)`, or is None while the
-    read is only reached under `name is not None` (the None branch returns a text)"""
+    """does `t.__getattribute__(name_expr)` at cfg node cn only see names the task has?
+    ('ok', why): every alternative of the (expanded) name is under `<alt> in t.__dict__` / `hasattr(t, <alt>)`, or is None
+    while the read is only reached under `name is not None`; ('bad', why): an alternative is read although every condition
+    on the way was understood and none of them establishes it; None: not understood"""
     path = []
     for tt, p in cfg.conditions(cn):
         path += facts.split_conj(tt, p)
@@ -2258,17 +2290,24 @@ def _lookup_guarded(ex, cfg, f, t, name_expr, cn):
         path_x += facts.split_conj(ex.expand(tt, cfg.node_containing(tt)), p)
     e = ex.expand(name_expr, cn)
 
+    def membership(a, ap):
+        """(name expression, holds) for `<n> [not] in t.__dict__` / hasattr(t, <n>)"""
+        while isinstance(a, ast.UnaryOp) and isinstance(a.op, ast.Not):
+            a, ap = a.operand, not ap
+        if isinstance(a, ast.Compare) and len(a.ops) == 1 and isinstance(a.ops[0], (ast.In, ast.NotIn)) \
+                and match(f"{t}.__dict__", a.comparators[0]):
+            return a.left, ap if isinstance(a.ops[0], ast.In) else not ap
+        m = match(f"hasattr({t}, $n)", a)
+        if m:
+            return m['n'], ap
+        return None
+
     def has(conds, alt):
-        for a, ap in conds:
-            while isinstance(a, ast.UnaryOp) and isinstance(a.op, ast.Not):
-                a, ap = a.operand, not ap
-            if isinstance(a, ast.Compare) and len(a.ops) == 1 and match(f"{t}.__dict__", a.comparators[0]) and same(a.left, alt):
-                if (isinstance(a.ops[0], ast.In) and ap) or (isinstance(a.ops[0], ast.NotIn) and not ap):
-                    return True
-            m = match(f"hasattr({t}, $n)", a)
-            if m and ap and same(m['n'], alt):
-                return True
-        return False
+        return any(mb is not None and mb[1] and same(mb[0], alt) for mb in (membership(a, ap) for a, ap in conds))
+
+    def is_none_test(a, ap):
+        c = cmp_norm(a, ap)
+        return bool(c and c[1] in ('is', 'isnot', '==', '!=') and any(isinstance(x, ast.Constant) and x.value is None for x in (c[0], c[2])))
 
     def none_excluded():
         for a, ap in path:
@@ -2277,6 +2316,15 @@ def _lookup_guarded(ex, cfg, f, t, name_expr, cn):
                 return True
         return False
 
+    def understood(conds):
+        for a, ap in conds:
+            if membership(a, ap) is None and not is_none_test(a, ap) and eq_const(a, ap) is None \
+                    and not (isinstance(a, ast.Call) and isinstance(a.func, ast.Name) and a.func.id == 'isinstance'):
+                return False
+        return True
+
+    if has(path, name_expr):
+        return 'ok', f"read under `{src(name_expr)} in {t}.__dict__`"
     alts = 0
     for (cs, leaf), _ in _ifexp_cases(e):
         conds = list(path_x)
@@ -2284,11 +2332,16 @@ def _lookup_guarded(ex, cfg, f, t, name_expr, cn):
             conds += facts.split_conj(tt, p)
         if isinstance(leaf, ast.Constant) and leaf.value is None:
             if not none_excluded():
+                if understood(conds + path):
+                    return 'bad', f"the looked-up name `{src(name_expr)}` = `{src(e)[:90]}` can be None when the attribute is read"
                 return None
             continue
         if not has(conds, leaf):
+            if understood(conds + path):
+                return 'bad', (f"the alternative `{src(leaf)}` of the looked-up name `{src(name_expr)}` = `{src(e)[:90]}` is read without "
+                               f"`{src(leaf)} in {t}.__dict__` on the way")
             return None
         alts += 1
     if not alts:
         return None
-    return f"`{src(name_expr)}` = {src(e)[:90]}"
+    return 'ok', f"`{src(name_expr)}` = {src(e)[:90]}"
